@@ -127,6 +127,17 @@ def run(rec):
                 ok, Hr = rec.guarded('to_TermList:exception', tlr, inp)
                 if ok:
                     rec.check(np.allclose(Hr, Hd, atol=1e-7 * scale), 'to_TermList->from_term_list:dense', f'max dev {np.abs(Hr - Hd).max()}', inp)
+                # `start` selects the sites at which the returned terms begin - in any order of listing
+                Lc = len(sites)
+                order_ = [int(x) for x in rng.permutation(Lc)]
+
+                def tl_start():
+                    tl = H.to_TermList(op_basis=['Id', 'Sz', 'Sp', 'Sm'], start=order_)
+                    return mpo_dense(MPOGraph.from_term_list(tl, sites, 'finite').build_MPO(), sites)
+                ok, Hr = rec.guarded('to_TermList(start=permuted):exception', tl_start, dict(inp, start=order_))
+                if ok:
+                    rec.check(np.allclose(Hr, Hd, atol=1e-7 * scale), 'to_TermList(start=permuted)->from_term_list:dense',
+                              f'max dev {np.abs(Hr - Hd).max()} for start={order_}', dict(inp, start=order_))
                 # the same for derived MPOs: a sum (whose IdR bookkeeping differs from a built MPO) and a scaled-and-shifted one
                 for tag, Hx, Hxd in (('sum', H + H2, Hd + H2d), ('sum-reversed', H2 + H, Hd + H2d)):
                     def tlr2(Hx=Hx):
